@@ -181,9 +181,10 @@ def run(ctx, report):
         'contradicts the ref is a violation; two rows claiming one cell is a violation. D2: def-use of the values stored in self.l / self.b / self.offset on the '
         'success path of _dis, who-may-read rule on the stream. D3: every operand fetch of _dis takes its width from the architecturally right mode variable '
         '(ModRM/displacement and moffs: address size; immediates, relative targets, register operands: operand size), the 0x66/0x67 toggles, and get_afs unpacks each '
-        'displacement token with the format and byte count of that token.')
-    report.not_decided = ('values of the ModRM/SIB tables built by the loops of init_pre_modrm at run time (scale, base/index register, displacement token per '
-                          'mod/rm), the register file chosen per SSE row inside _dis, operand rendering by __str__/dict_to_ad.')
+        'displacement token with the format and byte count of that token. D4: init_pre_modrm is evaluated statically (constant evaluation of its loops) and all 256 32-bit ModRM entries, '
+        '3 x 256 SIB entries, 256 16-bit ModRM entries and the mm/xmm register forms are compared with the architectural definition written independently in the checker '
+        '(base/index registers with their coefficient, displacement kind and signedness); register lists carry the IA-32 numbering.')
+    report.not_decided = ('the register file chosen per SSE row inside _dis, operand rendering by __str__/dict_to_ad.')
     R1 = report.rule('C01.D1', 'every opcode-table unit agrees with the IA-32 opcode map', floor=600)
     U = X.units()
     mmx_key = E['mmx']
@@ -434,8 +435,130 @@ def run(ctx, report):
             R3.violation('get_afs:table:%s' % mode, 'afs-table:%s:%s' % (mode, pairs.get(mode)), 'get_afs uses %s for mode %s, expected %s' % (pairs.get(mode), mode, want),
                          where(arch, ga))
 
+    # ---------------------------------------------------------------- D4 ModRM / SIB tables
+    R4 = report.rule('C01.D4', 'ModRM/SIB addressing tables and register numbering are the IA-32 definition', floor=1500)
+    T = X.modrm_tables()
+    afs = X.afs
+    STD = {'reg_list8': 'al cl dl bl ah ch dh bh', 'reg_list16': 'ax cx dx bx sp bp si di', 'reg_list32': 'eax ecx edx ebx esp ebp esi edi',
+           'reg_sg': 'es cs ss ds fs gs', 'reg_cr': 'cr0 cr1 cr2 cr3 cr4 cr5 cr6 cr7', 'reg_dr': 'dr0 dr1 dr2 dr3 dr4 dr5 dr6 dr7',
+           'reg_mm': 'mm0 mm1 mm2 mm3 mm4 mm5 mm6 mm7', 'reg_xmm': 'xmm0 xmm1 xmm2 xmm3 xmm4 xmm5 xmm6 xmm7'}
+    for attr, names in STD.items():
+        got = getattr(afs, attr)
+        want = names.split()
+        inst = 'x86_afs.%s' % attr
+        if list(got)[:len(want)] == want:
+            R4.ok(inst, sample='%s = %s' % (attr, names))
+        else:
+            R4.violation(inst, 'regnum:%s' % attr, 'register numbering %s is %s; IA-32 numbers them %s' % (attr, list(got), want), where(X.reg, X.reg.method('afs_desc', '__init__')))
+    DISP = {afs.s08: 'disp8 (sign-extended)', afs.u08: 'disp8 (ZERO-extended)', afs.u16: 'disp16', afs.u32: 'disp32', afs.s32: 'disp32', afs.s16: 'disp16', None: 'no displacement'}
+
+    def arch_sib(mod, sib):
+        ss, idx, base = (sib >> 6) & 3, (sib >> 3) & 7, sib & 7
+        regs = {}
+        if not (base == 5 and mod == 0):
+            regs[base] = 1
+        if idx != 4:
+            regs[idx] = regs.get(idx, 0) + (1 << ss)
+        disp = {0: ('disp32' if base == 5 else 'no displacement'), 1: 'disp8 (sign-extended)', 2: 'disp32'}[mod]
+        return regs, disp
+
+    def arch_modrm32(mod, rm):
+        if mod == 3:
+            return 'reg', {rm: 1}, 'no displacement'
+        if rm == 4:
+            return 'sib', None, None
+        if mod == 0 and rm == 5:
+            return 'mem', {}, 'disp32'
+        return 'mem', {rm: 1}, {0: 'no displacement', 1: 'disp8 (sign-extended)', 2: 'disp32'}[mod]
+    BX, SP, BP, SI, DI = 3, 4, 5, 6, 7
+    RM16 = {0: {BX: 1, SI: 1}, 1: {BX: 1, DI: 1}, 2: {BP: 1, SI: 1}, 3: {BP: 1, DI: 1}, 4: {SI: 1}, 5: {DI: 1}, 6: {BP: 1}, 7: {BX: 1}}
+
+    def arch_modrm16(mod, rm):
+        if mod == 3:
+            return 'reg', {rm: 1}, 'no displacement'
+        if mod == 0 and rm == 6:
+            return 'mem', {}, 'disp16'
+        return 'mem', dict(RM16[rm]), {0: 'no displacement', 1: 'disp8 (sign-extended)', 2: 'disp16'}[mod]
+
+    def entry(d):
+        regs = dict((k, v) for k, v in d.items() if isinstance(k, int) and v != 0)
+        return ('mem' if d.get(afs.ad) else 'reg'), regs, DISP.get(d.get(afs.imm), 'token %r' % d.get(afs.imm))
+
+    def regtxt(regs, names):
+        return '+'.join(('%s*%d' % (names[k], c)) if c != 1 else names[k] for k, c in sorted(regs.items())) or '-'
+    loc_pre = where(arch, arch.method('x86allmncs', 'init_pre_modrm'))
+    SIBT = {0: 'sib_rez_u32', 1: 'sib_rez_u08_ebp', 2: 'sib_rez_u32_ebp'}
+    n32 = afs.reg_list32
+    for m in range(0x100):
+        mod, rm = m >> 6, m & 7
+        kind, regs, disp = arch_modrm32(mod, rm)
+        got = T['db_afs'][m]
+        inst = 'modrm32[%02X]' % m
+        if kind == 'sib':
+            if got is not T[SIBT[mod]]:
+                R4.violation(inst, 'modrm32:%02X:sib-table' % (m & 0xC7), 'ModRM %02X (mod=%d, rm=4) must use the SIB table of mod %d (%s)' % (m, mod, mod, SIBT[mod]), loc_pre)
+            else:
+                R4.ok(inst, nontrivial=False)
+            continue
+        if isinstance(got, list):
+            R4.violation(inst, 'modrm32:%02X:unexpected-sib' % (m & 0xC7), 'ModRM %02X has no SIB byte in IA-32 but the table expects one' % m, loc_pre)
+            continue
+        g = entry(got)
+        if g == (kind, regs, disp):
+            R4.ok(inst, sample='ModRM %02X = %s %s, %s' % (m, kind, regtxt(regs, n32), disp))
+        else:
+            R4.violation(inst, 'modrm32:mod%d:rm%d' % (mod, rm), 'ModRM %02X (mod=%d rm=%d) decodes as %s [%s], %s; IA-32: %s [%s], %s'
+                         % (m, mod, rm, g[0], regtxt(g[1], n32), g[2], kind, regtxt(regs, n32), disp), loc_pre, witness='8b %02x ...' % m)
+    for mod, tname in SIBT.items():
+        tab = T[tname]
+        for sib in range(0x100):
+            regs, disp = arch_sib(mod, sib)
+            g = entry(tab[sib])
+            inst = 'sib[mod%d][%02X]' % (mod, sib)
+            if g == ('mem', regs, disp):
+                R4.ok(inst, sample='mod=%d SIB %02X = [%s], %s' % (mod, sib, regtxt(regs, n32), disp))
+            else:
+                R4.violation(inst, 'sib:mod%d:ss%d:i%d:b%d' % (mod, sib >> 6, (sib >> 3) & 7, sib & 7), 'mod=%d SIB %02X decodes as %s [%s], %s; IA-32: mem [%s], %s'
+                             % (mod, sib, g[0], regtxt(g[1], n32), g[2], regtxt(regs, n32), disp), loc_pre, witness='8b %02x %02x ...' % (4 | (mod << 6), sib))
+    n16 = afs.reg_list16
+    for m in range(0x100):
+        mod, rm = m >> 6, m & 7
+        want = arch_modrm16(mod, rm)
+        g = entry(T['db_afs_16'][m])
+        inst = 'modrm16[%02X]' % m
+        if g == want:
+            R4.ok(inst, sample='16-bit ModRM %02X = %s [%s], %s' % (m, want[0], regtxt(want[1], n16), want[2]))
+        else:
+            R4.violation(inst, 'modrm16:mod%d:rm%d' % (mod, rm), '16-bit ModRM %02X decodes as %s [%s], %s; IA-32: %s [%s], %s'
+                         % (m, g[0], regtxt(g[1], n16), g[2], want[0], regtxt(want[1], n16), want[2]), loc_pre, witness='67 8b %02x ...' % m)
+    for tname, base, nm in (('db_afs_mm', afs.reg_mm_base, 'mm'), ('db_afs_xmm', afs.reg_xmm_base, 'xmm')):
+        tab = T[tname]
+        for m in range(0x100):
+            inst = '%s[%02X]' % (tname, m)
+            if m >> 6 == 3:
+                g = entry(tab[m])
+                if g == ('reg', {base + (m & 7): 1}, 'no displacement'):
+                    R4.ok(inst, sample='%s ModRM %02X = %s%d' % (nm, m, nm, m & 7))
+                else:
+                    R4.violation(inst, '%s:rm%d' % (tname, m & 7), '%s register form %02X decodes as %s, expected %s%d' % (nm, m, g, nm, m & 7), loc_pre)
+            elif tab[m] is T['db_afs'][m]:
+                R4.ok(inst, nontrivial=False)
+            else:
+                R4.violation(inst, '%s:mem:%02X' % (tname, m & 0xC7), 'memory forms of the %s table differ from the general ModRM table at %02X' % (nm, m), loc_pre)
+    mrm = arch.method('x86allmncs', 'modrm')
+    rt = [n for n in ast.walk(mrm) if isinstance(n, ast.Return)]
+    if rt and u(rt[0].value).replace(' ', '') == '(c>>6&3,c>>3&7,c&7)':
+        R4.ok('modrm-split', sample='modrm(c) = (c>>6)&3, (c>>3)&7, c&7')
+    else:
+        R4.violation('modrm-split', 'modrm-split', 'modrm(c) no longer splits the byte into mod (bits 7-6), reg (5-3), rm (2-0): %s' % (u(rt[0].value) if rt else '?'), where(arch, mrm))
+
 
 MUTANTS = [
+    ('sib-scale', 'miasmx/arch/ia32_arch.py', "                    sib_rez[index][i] += 2**ss\n", "                    sib_rez[index][i] += 2*ss\n", 'C01.D4'),
+    ('disp8-unsigned', 'miasmx/arch/ia32_arch.py', "                self.db_afs[i] = {x86_afs.ad:True, rm:1,x86_afs.imm:x86_afs.s08}", "                self.db_afs[i] = {x86_afs.ad:True, rm:1,x86_afs.imm:x86_afs.u08}", 'C01.D4'),
+    ('rm16-swap', 'miasmx/arch/ia32_arch.py', "                                             [_si, _di][rm%2]:1,\n                                             [_bx, _bp][(rm>>1)%2]:1}\n            elif mod in [1,2]:", "                                             [_si, _di][rm%2]:1,\n                                             [_bp, _bx][(rm>>1)%2]:1}\n            elif mod in [1,2]:", 'C01.D4'),
+    ('sib-base5-mod1', 'miasmx/arch/ia32_arch.py', "                if r != 5 or sib_rez != self.sib_rez_u32:\n                    sib_rez[index][r] = 1", "                if r != 5:\n                    sib_rez[index][r] = 1", 'C01.D4'),
+    ('reg-order', 'miasmx/arch/ia32_reg.py', "self.r_esp, self.r_ebp, self.r_esi, self.r_edi]", "self.r_ebp, self.r_esp, self.r_esi, self.r_edi]", 'C01.D4'),
     ('bsf-opcode', 'miasmx/arch/ia32_arch.py', 'addop("bsf",   [0x0F, 0xBC]', 'addop("bsf",   [0x0F, 0xBD]', 'C01.D1'),
     ('len-prefix', 'miasmx/arch/ia32_arch.py', "            self.l = t_len\n", "            self.l = t_len + len(read_prefix)\n", 'C01.D2'),
     ('mim-opmode', 'miasmx/arch/ia32_arch.py', "                    l = struct.calcsize(x86_afs.dict_size[self.admode])\n                    d = struct.unpack(x86_afs.dict_size[self.admode], bin.readbs(l))[0]",
